@@ -141,6 +141,36 @@ func propC11(o *propOpts) *propResult {
 			each(entryByName(name), sb.String())
 		}
 	}
+	// end of input vs ';': every token-boundary PREFIX of every pool member (the whole member included), as it is and with a
+	// trailing comma, followed by ';' and a second statement — a production that asks "is this the end of the input?" where it
+	// should ask "is this the end of the statement?" accepts the prefix alone and rejects it in a list (or the reverse)
+	cnt := 0
+	for _, name := range []string{"ParseStatements", "ParseDDLs", "ParseDMLs"} {
+		pool := pools[name]
+		second := map[string]string{"ParseStatements": "SELECT 1", "ParseDDLs": "DROP TABLE t", "ParseDMLs": "DELETE FROM t WHERE TRUE"}[name]
+		for _, st := range pool {
+			if name == "ParseStatements" && cfDirIsDDLorDML(st) {
+				continue
+			}
+			toks, ok := tokenSpans(st)
+			if !ok {
+				continue
+			}
+			for i := 1; i < len(toks); i++ {
+				cnt++
+				if o.tier != "thorough" && cnt%2 != int(o.seed%2) {
+					continue
+				}
+				pre := st[:toks[i].Pos]
+				if toks[i].Kind == token.TokenEOF {
+					pre = st
+				}
+				each(entryByName(name), pre+"; "+second)
+				each(entryByName(name), pre+",; "+second)
+				each(entryByName(name), pre+", ;"+second+";")
+			}
+		}
+	}
 	n := 1200
 	if o.tier == "thorough" {
 		n = 30000
